@@ -335,6 +335,7 @@ func (s *Sel) Wait() int {
 		}
 		idx = opts[k]
 	case s.hasDef:
+		x.NoteResult(0xffff)
 		return -1
 	case len(paid) > 0:
 		k := 0
@@ -351,6 +352,11 @@ func (s *Sel) Wait() int {
 	}
 	x.foldResult(t, uint64(idx)+101)
 	s.fire(x, t, idx)
+	occ := 0
+	if st := s.cases[idx].st; st != nil {
+		occ = len(st.buf)
+	}
+	x.NoteResult(uint64(idx)<<16 | uint64(occ))
 	return idx
 }
 
